@@ -110,8 +110,10 @@ PARTIAL = [
     "non-negative and sum to one (mean_in_hull); their exact values belong to C18's CMA weight model",
     "Adam: the model carries the L2 term (effGrad) and the first step after a reset in closed form "
     "(theta + lr*e/(|e| + eps'), e = mean - theta - l2_coeff*theta, eps' = eps/sqrt(1-beta2) supplied); later steps "
-    "(moment estimates, square roots) are held to a harness-side restatement of the documented rule within 1e-8, with "
-    "coordinates whose second-moment estimate is below 1e-6 excluded as a tie zone; the full rule is C18's",
+    "(moment estimates, square roots) are held to a harness-side restatement of the documented rule evaluated on the "
+    "input interval gradient +- (a few ulps of the magnitudes entering mean - theta), widened by 1e-8 -- the tolerance "
+    "follows the rule's sensitivity near a vanishing gradient -- with coordinates whose second-moment estimate is "
+    "non-zero but below 1e-6 excluded as a tie zone; the full rule is C18's",
     "a restart that is due while the archive is still empty raises IndexError from sample_elites (after the counter "
     "and theta moved); the property's restart clause ('re-centres on a current elite') presupposes a non-empty archive "
     "whenever a restart is due, as C10's quantifier does -- modelled as an explicit error outcome, not a violation",
@@ -274,13 +276,27 @@ class RefAdam:
         self.v = np.zeros(self.n)
         self.t = 0
 
-    def step(self, theta, g):
+    def peek(self, theta, g):
+        """(theta', m', v') of one step from the current moments, without committing it"""
         d = -np.asarray(g, dtype=np.float64) + self.l2 * theta
+        t = self.t + 1
+        a = self.lr * np.sqrt(1 - self.b2**t) / (1 - self.b1**t)
+        m = self.b1 * self.m + (1 - self.b1) * d
+        v = self.b2 * self.v + (1 - self.b2) * (d * d)
+        return theta - a * m / (np.sqrt(v) + self.eps), m, v
+
+    def step(self, theta, g):
+        out, self.m, self.v = self.peek(theta, g)
         self.t += 1
-        a = self.lr * np.sqrt(1 - self.b2**self.t) / (1 - self.b1**self.t)
-        self.m = self.b1 * self.m + (1 - self.b1) * d
-        self.v = self.b2 * self.v + (1 - self.b2) * (d * d)
-        return theta - a * self.m / (np.sqrt(self.v) + self.eps)
+        return out
+
+    def envelope(self, theta, g, delta):
+        """The rule is evaluated on the input interval g +- delta (delta: the rounding the emitter's float
+        computation of `mean - theta` may carry): coordinate-wise (lowest, highest) admissible theta'.  Near a
+        vanishing gradient the rule is steep (first step: lr*g/(|g| + eps')), so a residue of 1e-17 in g moves
+        theta by 1e-10; the tolerance has to follow that sensitivity instead of being a constant."""
+        outs = [self.peek(theta, np.asarray(g) + s * delta)[0] for s in (-1.0, -0.5, 0.0, 0.5, 1.0)]
+        return np.min(outs, axis=0), np.max(outs, axis=0)
 
 
 ADAM_EPS_PRIME = Fraction(float(1e-8 / np.sqrt(1 - 0.999)))   # eps / sqrt(1 - beta2): supplied to the model
@@ -559,21 +575,30 @@ def run_gae(case, ctx):
                     par_ = [frow(sols[perm[r]]) for r in range(npar)]
                     mean_ = [sum(fr(w_[r]) * par_[r][k] for r in range(npar)) for k in range(n)]
                     eff = [(mean_[k] - fr(th0[k])) - Fraction(l2) * fr(th0[k]) for k in range(n)]
-                    want = ref_adam.step(th0, np.array([float(mean_[k]) - th0[k] for k in range(n)]))
+                    g_nom = np.array([float(mean_[k]) - th0[k] for k in range(n)])
+                    # rounding the emitter's own float computation of `mean - theta` (a weighted sum of npar rows,
+                    # then a subtraction) may carry: a few ulps of the magnitudes involved
+                    mag = np.array([max([abs(th0[k])] + [abs(float(par_[r][k])) for r in range(npar)])
+                                    for k in range(n)])
+                    adam_delta = 16 * (npar + 2) * np.finfo(np.float64).eps * np.maximum(mag, 1e-300)
+                    lo_env, hi_env = ref_adam.envelope(th0, g_nom, adam_delta)
+                    want = ref_adam.step(th0, g_nom)
                     if res == "ok" and em.restarts == rst0:
                         for k in range(n):
                             tolk = 1e-8 * max(1.0, abs(th0[k]), abs(want[k]))
-                            if ref_adam.v[k] == 0:
-                                bad = th1[k] != th0[k]
-                            elif np.sqrt(ref_adam.v[k]) < 1e-3:
+                            if ref_adam.v[k] != 0 and np.sqrt(ref_adam.v[k]) < 1e-3:
+                                # every gradient since the reset was tiny in this coordinate: the moments themselves
+                                # are rounding-dominated (tie zone); the step is at most lr in size, nothing is read
                                 ctx.count("gae:adam-coordinate-in-tie-zone")
                                 continue
-                            else:
-                                bad = abs(th1[k] - want[k]) > tolk
-                            if bad:
+                            if not lo_env[k] - tolk <= th1[k] <= hi_env[k] + tolk:
                                 return Failure("oracle", f"{where}: Adam step {ref_adam.t} since the last reset "
                                                f"(lr={lr}, l2_coeff={l2}): theta[{k}] {th0[k]!r} -> {th1[k]!r}, the "
-                                               f"documented rule (ascent on f - l2/2 |theta|^2) gives {want[k]!r}")
+                                               f"documented rule (ascent on f - l2/2 |theta|^2) gives {want[k]!r} "
+                                               f"(admissible for the gradient +- {adam_delta[k]:.3g}: "
+                                               f"[{lo_env[k]!r}, {hi_env[k]!r}])")
+                            if hi_env[k] - lo_env[k] > tolk:
+                                ctx.count("gae:adam-sensitive-coordinate")
                         ctx.count("gae:adam-step-checked" + (":l2>0" if l2 > 0 else ""))
                 if okind == "adam" and have_grad and res == "ok" and em.restarts != rst0:
                     ref_adam.reset()
@@ -621,7 +646,9 @@ def run_gae(case, ctx):
                         if eff[k] != 0 and abs(eff[k]) < Fraction(1, 1000):
                             ctx.count("gae:adam-coordinate-in-tie-zone")
                             continue
-                        if abs(fr(th1[k]) - mth[k]) > Fraction(1, 10**9) * max(1, abs(mth[k])):
+                        # sensitivity of theta + lr*e/(|e| + eps') to the rounding of e: at most lr*delta/eps'
+                        slack = Fraction(lr) * Fraction(float(adam_delta[k])) / ADAM_EPS_PRIME if eff[k] == 0 else 0
+                        if abs(fr(th1[k]) - mth[k]) > Fraction(1, 10**9) * max(1, abs(mth[k])) + slack:
                             return Failure("corr", f"{where}: first Adam step theta[{k}] impl={th1[k]!r} "
                                            f"model={float(mth[k])!r} (theta + lr*e/(|e| + eps'), e = mean - theta - l2*theta)")
                     ctx.count("gae:adam-first-step-vs-model")
